@@ -921,7 +921,7 @@ Section KeyProofs.
     rewrite (read_full_app [(N.of_nat (hdr_len k) mod 256)%N]). rewrite beq_refl. cbn [negb].
     rewrite (read_full_app' salt _ (k_dk k)) by (symmetry; exact Hsalt).
     rewrite (read_full_app' prefix _ nonce_prefix_size) by (symmetry; exact Hpre).
-    assert (Hnr : forall s, new_reader (k_rparams k prefix) s = Some (mkR [] 0 [] 0%N false s)).
+    assert (Hnr : forall s : src, new_reader (k_rparams k prefix) s = Some (mkR [] 0 [] 0%N false s)).
     { intros s. unfold new_reader, k_rparams. cbn [r_nonce_size r_prefix]. rewrite Hpre.
       destruct k; reflexivity. }
     rewrite Hnr. rewrite <- surjective_pairing. fold sk.
@@ -936,3 +936,339 @@ Section KeyProofs.
     exact HR.
   Qed.
 End KeyProofs.
+
+(* ------------------------------------------------------------------ *)
+(* (e) the "too many segments" guard                                   *)
+(* ------------------------------------------------------------------ *)
+Lemma guard_close encs P st : (max_segments <= wcnt st)%N -> wclosed st = false ->
+  wclose encs P st = (st, false).
+Proof. intros H Hc. unfold wclose. rewrite Hc, gen_nonce_none by exact H. reflexivity. Qed.
+
+Lemma guard_write encs P st p : (max_segments <= wcnt st)%N -> wclosed st = false ->
+  match snd (wwrite encs P st p) with
+  | WOk n => n = length p /\ wcnt (fst (wwrite encs P st p)) = wcnt st /\
+             wsink (fst (wwrite encs P st p)) = wsink st      (* everything fitted: nothing emitted *)
+  | _ => True
+  end.
+Proof.
+  intros H Hc. unfold wwrite. rewrite Hc.
+  replace (length p + 2) with (S (length p + 1)) by lia. cbn [wloop].
+  destruct (wlim P (wcnt st)) as [lim|]; [|exact I].
+  destruct (lim <? length (wbuf st)); [exact I|].
+  set (n := Nat.min _ _). destruct (skipn n p) eqn:E.
+  - cbn. assert (length (skipn n p) = 0) by (rewrite E; reflexivity).
+    rewrite skipn_length in H0. unfold n in *. repeat split. lia.
+  - rewrite gen_nonce_none by exact H. exact I.
+Qed.
+
+Lemma guard_read decs P (st : rst src) n : (max_segments <= rcnt st)%N ->
+  length (rpt st) <= rpos st -> rlast st = false ->
+  match snd (read decs read_full P st n) with RData _ => False | _ => True end.
+Proof.
+  intros H Hp Hl. unfold read.
+  destruct (Nat.ltb_spec (rpos st) (length (rpt st))); [lia|]. rewrite Hl.
+  destruct (rlim P (rcnt st)); [|exact I].
+  destruct (_ <? _); [exact I|].
+  destruct (read_full _ _) as ((s', got), k).
+  destruct k; cbn [negb andb snd]; try exact I;
+    try (rewrite gen_nonce_none by exact H; exact I).
+  destruct (_ =? 0); [exact I|]. rewrite gen_nonce_none by exact H. exact I.
+Qed.
+
+(* ------------------------------------------------------------------ *)
+(* (c) manipulation: whatever bytes the reader is given                *)
+(* ------------------------------------------------------------------ *)
+Lemma read_full_split s w s' g k : read_full s w = (s', g, k) ->
+  srem s = g ++ srem s' /\ (k = RFeof \/ k = RFuneof -> srem s' = []).
+Proof.
+  unfold read_full. destruct (_ <=? _).
+  - intros H; inversion H; subst. cbn. split; [symmetry; apply firstn_skipn|]. intros [?|?]; discriminate.
+  - destruct (sfailr s) as [f|] eqn:Ef.
+    + destruct (Nat.leb_spec f (length (srem s))) as [Hf|Hf]; intros H; inversion H; subst; cbn.
+      * split; [symmetry; apply firstn_skipn|]. intros [?|?]; discriminate.
+      * split; [symmetry; apply firstn_skipn|]. intros _. apply skipn_all2. lia.
+    + intros H; inversion H; subst; cbn. split; [symmetry; apply firstn_skipn|]. intros _. apply skipn_all.
+Qed.
+
+Lemma firstn_succ_nth {A} (l : list A) j d : j < length l -> firstn (S j) l = firstn j l ++ [nth j l d].
+Proof.
+  revert j; induction l as [|x l IH]; intros j H; simpl in *; [lia|].
+  destruct j; [reflexivity|]. simpl. f_equal. apply IH. lia.
+Qed.
+
+Lemma concat_firstn_prefix (ss : list bytes) j : concat ss = concat (firstn j ss) ++ concat (skipn j ss).
+Proof. rewrite <- concat_app, firstn_skipn. reflexivity. Qed.
+
+Lemma encf_split_last encs ns pre (l : list bytes) j : j + 1 = length l ->
+  enc_from encs ns pre 0%N l =
+  enc_nl encs ns pre 0%N (firstn j l) ++ encs (nonce_of ns pre (N.of_nat j) true) (nth j l []).
+Proof.
+  intros H. rewrite <- (firstn_all l) at 1. rewrite <- H, Nat.add_1_r, (firstn_succ_nth l j []) by lia.
+  rewrite enc_from_snoc, firstn_length, Nat.min_l by lia. rewrite N.add_0_l. reflexivity.
+Qed.
+
+Section Manipulation.
+  Variable encs : bytes -> bytes -> bytes.
+  Variable decs : bytes -> bytes -> option bytes.
+  Variable P : rparams.
+  Variable seg ov : nat.
+  Hypothesis Hct : r_ctseg P = seg + ov.
+  Hypothesis Hpos : 0 < seg - r_off P.
+  Variable p : bytes.                  (* the plaintext that was encrypted under this session key *)
+  Local Notation off := (r_off P).
+  Local Notation ENCF := (enc_from encs (r_nonce_size P) (r_prefix P)).
+  Local Notation ENL := (enc_nl encs (r_nonce_size P) (r_prefix P)).
+  Local Notation NONCE := (nonce_of (r_nonce_size P) (r_prefix P)).
+  Local Notation READ := (read decs read_full P).
+  Local Notation DRIVE := (drive decs read_full P).
+  Local Notation ss := (segments seg off p).
+  Hypothesis Hb : (N.of_nat (length ss) <= max_segments)%N.
+  (* authenticity of the segment cipher under this session key: the only
+     (nonce, ciphertext) pairs that decrypt are the ones the writer produced *)
+  Hypothesis Hauth : forall n c s, decs n c = Some s ->
+    exists i, i < length ss /\ n = NONCE (N.of_nat i) (i + 1 =? length ss) /\
+              s = nth i ss [] /\ c = encs n s.
+
+  Definition MRel (c' : bytes) (j : nat) (st : rst src) (acc : bytes) : Prop :=
+    rcnt st = N.of_nat j /\ rpos st <= length (rpt st) /\ length (rcarry st) <= 1 /\
+    ((rcnt st = 0)%N -> rcarry st = []) /\
+    acc ++ skipn (rpos st) (rpt st) = concat (firstn j ss) /\
+    (if rlast st then j = length ss /\ c' = ENCF 0%N ss
+     else j < length ss /\ c' = ENL 0%N (firstn j ss) ++ rcarry st ++ srem (rsrc st)).
+
+  Definition mmsr (j : nat) (acc : bytes) : nat := (length ss - j) + (length p - length acc).
+
+  Lemma acc_le c' j st acc : MRel c' j st acc -> length acc + length (skipn (rpos st) (rpt st)) <= length p.
+  Proof.
+    intros (_ & _ & _ & _ & H & _). apply (f_equal (@length N)) in H. rewrite app_length in H.
+    rewrite H. rewrite <- (segments_concat seg off p) at 2.
+    rewrite (concat_firstn_prefix ss j), app_length. lia.
+  Qed.
+
+  Lemma m_step c' j st acc n : MRel c' j st acc ->
+    let '(st', r) := READ st n in
+    match r with
+    | RPanic => False
+    | RErr => True
+    | REof => c' = ENCF 0%N ss /\ acc = p
+    | RData b => exists j', MRel c' j' st' (acc ++ b) /\
+                 mmsr j' (acc ++ b) <= mmsr j acc /\ (0 < n -> mmsr j' (acc ++ b) < mmsr j acc)
+    end.
+  Proof.
+    intros HR. pose proof (acc_le _ _ _ _ HR) as Hle.
+    destruct HR as (Hcnt & Hp & Hcl & Hc0 & Hacc & Hst). unfold read.
+    destruct (Nat.ltb_spec (rpos st) (length (rpt st))) as [Hlt|Hge].
+    - (* serve *)
+      set (k := Nat.min n (length (rpt st) - rpos st)).
+      rewrite skipn_length in Hle.
+      exists j. split; [|split].
+      + unfold MRel; cbn [rpt rpos rcarry rcnt rlast rsrc]. repeat split; auto.
+        * unfold k; lia.
+        * rewrite <- Hacc, <- app_assoc. f_equal.
+          rewrite <- (firstn_skipn k (skipn (rpos st) (rpt st))) at 2. f_equal. symmetry. apply skipn_skipn'.
+      + unfold mmsr. rewrite app_length. lia.
+      + intros Hn. unfold mmsr. rewrite app_length, firstn_length, skipn_length. unfold k. lia.
+    - assert (Hsk : skipn (rpos st) (rpt st) = []) by (apply skipn_all2; lia).
+      rewrite Hsk, app_nil_r in Hacc.
+      destruct (rlast st) eqn:El.
+      + destruct Hst as (Hj & Hc'). split; [exact Hc'|].
+        rewrite Hacc, Hj, firstn_all. apply segments_concat.
+      + destruct Hst as (Hj & Hc').
+        assert (Hrl : exists ctlim, rlim P (rcnt st) = Some ctlim /\ length (rcarry st) <= ctlim).
+        { unfold rlim. destruct (N.eqb_spec (rcnt st) 0) as [E|E].
+          - rewrite (Hc0 E). destruct (Nat.leb_spec off (r_ctseg P + 1)); [|lia]. eexists; split; [reflexivity|simpl; lia].
+          - eexists; split; [reflexivity|lia]. }
+        destruct Hrl as (ctlim & -> & Hcl2).
+        destruct (Nat.ltb_spec ctlim (length (rcarry st))); [lia|].
+        destruct (read_full (rsrc st) (ctlim - length (rcarry st))) as ((s', got), k) eqn:Erf.
+        apply read_full_split in Erf. destruct Erf as (Hsplit & Heof).
+        destruct k; try exact I.
+        * (* full read: not the last segment *)
+          cbn [negb andb].
+          destruct (Nat.eqb_spec (length (rcarry st ++ got)) 0) as [E0|E0]; [exact I|].
+          destruct (gen_nonce _ _ _ _) as [nonce|] eqn:En; [|exact I].
+          destruct (decs nonce _) as [pt|] eqn:Ed; [|exact I].
+          unfold gen_nonce in En. destruct (N.leb_spec max_segments (rcnt st)); [discriminate|].
+          inversion En; subst nonce; clear En.
+          destruct (Hauth _ _ _ Ed) as (i & Hi & Hn & Hpt & Hc).
+          apply nonce_inj in Hn; [|lia|lia]. destruct Hn as (Hij & Hlast).
+          assert (i = j) by lia. subst i.
+          symmetry in Hlast. apply Nat.eqb_neq in Hlast.
+          assert (Hbuf : rcarry st ++ got = removelast (rcarry st ++ got) ++ [last (rcarry st ++ got) 0%N]).
+          { apply app_removelast_last. intros E. rewrite E in E0. simpl in E0. lia. }
+          exists (S j). split; [|split].
+          -- unfold MRel; cbn [rpt rpos rcarry rcnt rlast rsrc]. repeat split.
+             ++ lia.
+             ++ lia.
+             ++ simpl; lia.
+             ++ intros E. lia.
+             ++ rewrite <- app_assoc, firstn_skipn, Hacc, (firstn_succ_nth ss j []), concat_app by exact Hi.
+                simpl. rewrite app_nil_r, Hpt. reflexivity.
+             ++ lia.
+             ++ rewrite Hc', Hsplit, (firstn_succ_nth ss j []) by exact Hi.
+                rewrite enc_nl_snoc, firstn_length, Nat.min_l by lia.
+                rewrite (app_assoc (rcarry st)), Hbuf, Hc, <- Hpt, <- !app_assoc.
+                rewrite last_last, N.add_0_l, <- Hij. reflexivity.
+          -- unfold mmsr. rewrite app_length. lia.
+          -- intros _. unfold mmsr. rewrite app_length. lia.
+        * (* io.EOF: last segment *)
+          cbn [negb andb].
+          destruct (gen_nonce _ _ _ _) as [nonce|] eqn:En; [|exact I].
+          destruct (decs nonce _) as [pt|] eqn:Ed; [|exact I].
+          unfold gen_nonce in En. destruct (N.leb_spec max_segments (rcnt st)); [discriminate|].
+          inversion En; subst nonce; clear En.
+          destruct (Hauth _ _ _ Ed) as (i & Hi & Hn & Hpt & Hc).
+          apply nonce_inj in Hn; [|lia|lia]. destruct Hn as (Hij & Hlast).
+          assert (i = j) by lia. subst i.
+          symmetry in Hlast. apply Nat.eqb_eq in Hlast.
+          exists (S j). split; [|split].
+          -- unfold MRel; cbn [rpt rpos rcarry rcnt rlast rsrc]. repeat split; auto; try lia; try (intros; lia).
+             ++ rewrite <- app_assoc, firstn_skipn, Hacc, (firstn_succ_nth ss j []), concat_app by exact Hi.
+                simpl. rewrite app_nil_r, Hpt. reflexivity.
+             ++ rewrite Hc', Hsplit, (Heof (or_introl eq_refl)), app_nil_r, Hc.
+                rewrite (encf_split_last _ _ _ ss j Hlast), <- Hpt, <- Hij. reflexivity.
+          -- unfold mmsr. rewrite app_length. lia.
+          -- intros _. unfold mmsr. rewrite app_length. lia.
+        * (* io.ErrUnexpectedEOF: last segment *)
+          cbn [negb andb].
+          destruct (gen_nonce _ _ _ _) as [nonce|] eqn:En; [|exact I].
+          destruct (decs nonce _) as [pt|] eqn:Ed; [|exact I].
+          unfold gen_nonce in En. destruct (N.leb_spec max_segments (rcnt st)); [discriminate|].
+          inversion En; subst nonce; clear En.
+          destruct (Hauth _ _ _ Ed) as (i & Hi & Hn & Hpt & Hc).
+          apply nonce_inj in Hn; [|lia|lia]. destruct Hn as (Hij & Hlast).
+          assert (i = j) by lia. subst i.
+          symmetry in Hlast. apply Nat.eqb_eq in Hlast.
+          exists (S j). split; [|split].
+          -- unfold MRel; cbn [rpt rpos rcarry rcnt rlast rsrc]. repeat split; auto; try lia; try (intros; lia).
+             ++ rewrite <- app_assoc, firstn_skipn, Hacc, (firstn_succ_nth ss j []), concat_app by exact Hi.
+                simpl. rewrite app_nil_r, Hpt. reflexivity.
+             ++ rewrite Hc', Hsplit, (Heof (or_intror eq_refl)), app_nil_r, Hc.
+                rewrite (encf_split_last _ _ _ ss j Hlast), <- Hpt, <- Hij. reflexivity.
+          -- unfold mmsr. rewrite app_length. lia.
+          -- intros _. unfold mmsr. rewrite app_length. lia.
+  Qed.
+
+  Lemma m_drive c' : forall sizes j st acc,
+    MRel c' j st acc ->
+    let '(outb, f) := DRIVE sizes st acc in
+    f <> Panicked /\ (exists tl, p = outb ++ tl) /\
+    (f = AtEof -> c' = ENCF 0%N ss /\ outb = p) /\
+    (Forall (fun n => 0 < n) sizes -> mmsr j acc < length sizes -> f <> Pending).
+  Proof.
+    induction sizes as [|n ns IH]; intros j st acc HR; cbn [drive].
+    - pose proof (acc_le _ _ _ _ HR) as Hle.
+      destruct HR as (_ & _ & _ & _ & Hacc & _).
+      repeat split; try discriminate.
+      + exists (skipn (rpos st) (rpt st) ++ concat (skipn j ss)).
+        rewrite app_assoc, Hacc, <- concat_firstn_prefix. symmetry. apply segments_concat.
+      + intros _ H. simpl in H. lia.
+    - pose proof (m_step c' j st acc n HR) as Hs.
+      destruct (READ st n) as (st', r). destruct r as [b| | |].
+      + destruct Hs as (j' & HR' & Hm1 & Hm2).
+        specialize (IH j' st' (acc ++ b) HR').
+        destruct (DRIVE ns st' (acc ++ b)) as (outb, f).
+        destruct IH as (H1 & H2 & H3 & H4). repeat split; auto.
+        * apply H3; auto.
+        * apply H3; auto.
+        * intros HF Hlt. inversion HF; subst. apply H4; auto. simpl in Hlt. specialize (Hm2 ltac:(assumption)). lia.
+      + destruct Hs as (Hc & Ha). repeat split; try discriminate; auto.
+        exists []. rewrite app_nil_r. auto.
+      + destruct HR as (_ & _ & _ & _ & Hacc & _). repeat split; try discriminate.
+        exists (skipn (rpos st) (rpt st) ++ concat (skipn j ss)).
+        rewrite app_assoc, Hacc, <- concat_firstn_prefix. symmetry. apply segments_concat.
+      + destruct Hs.
+  Qed.
+
+  Lemma segs_ne : 0 < length ss.
+  Proof.
+    pose proof (segs_from_ne seg off (length p) 0%N p) as H. unfold segments.
+    destruct (segs_from seg off (length p) 0%N p); [congruence|simpl; lia].
+  Qed.
+
+  (* (c) ANY byte string, any I/O behaviour of the source *)
+  Theorem manipulation_detected : forall c' F sizes st0,
+    new_reader P (mkSrc c' F) = Some st0 ->
+    let '(outb, f) := DRIVE sizes st0 [] in
+    f <> Panicked /\ (exists tl, p = outb ++ tl) /\
+    (f = AtEof -> c' = encode_stream encs (r_nonce_size P) (r_prefix P) seg off p /\ outb = p) /\
+    (Forall (fun n => 0 < n) sizes -> length ss + length p < length sizes -> f <> Pending).
+  Proof.
+    intros c' F sizes st0 Hnew. unfold new_reader in Hnew.
+    destruct (_ <? 5); [discriminate|]. inversion Hnew; subst st0; clear Hnew.
+    pose proof segs_ne as Hne.
+    assert (HR : MRel c' 0 (mkR [] 0 [] 0%N false (mkSrc c' F)) []).
+    { unfold MRel; cbn. repeat split; auto; lia. }
+    pose proof (m_drive c' sizes 0 _ [] HR) as H.
+    destruct (DRIVE sizes _ []) as (outb, f).
+    destruct H as (H1 & H2 & H3 & H4). repeat split; auto.
+    - apply H3; auto.
+    - apply H3; auto.
+    - intros HF Hl. apply H4; auto. unfold mmsr. simpl. lia.
+  Qed.
+End Manipulation.
+
+(* other associated data / another key = a session key under which nothing
+   was ever encrypted: nothing decrypts, so the first Read fails *)
+Section NoKey.
+  Variable decs : bytes -> bytes -> option bytes.
+  Variable P : rparams.
+  Hypothesis Hoff : r_off P <= r_ctseg P + 1.
+  Hypothesis Hnone : forall n c, decs n c = None.
+
+  Theorem nothing_decrypts : forall c' F n ns st0,
+    new_reader P (mkSrc c' F) = Some st0 ->
+    drive decs read_full P (n :: ns) st0 [] = ([], Failed).
+  Proof.
+    intros c' F n ns st0 Hnew. unfold new_reader in Hnew.
+    destruct (_ <? 5); [discriminate|]. inversion Hnew; subst st0; clear Hnew.
+    cbn [drive]. unfold read. cbn [rpos rpt rlast rcnt rcarry rsrc length].
+    unfold rlim. cbn [N.eqb]. destruct (Nat.leb_spec (r_off P) (r_ctseg P + 1)); [|lia].
+    cbn [Nat.ltb Nat.leb].
+    destruct (read_full _ _) as ((s', got), k).
+    destruct k; cbn [negb andb]; try reflexivity.
+    - destruct (_ =? 0); [reflexivity|]. destruct (gen_nonce _ _ _ _); [|reflexivity]. rewrite Hnone. reflexivity.
+    - destruct (gen_nonce _ _ _ _); [|reflexivity]. rewrite Hnone. reflexivity.
+    - destruct (gen_nonce _ _ _ _); [|reflexivity]. rewrite Hnone. reflexivity.
+  Qed.
+End NoKey.
+
+(* an instance of the authenticity premise: the ideal segment decrypter that
+   accepts exactly the (nonce, ciphertext) pairs the writer produced for ss *)
+Section IdealDecs.
+  Variable encs : bytes -> bytes -> bytes.
+  Variable ns : nat.
+  Variable pre : bytes.
+  Variable ss : list bytes.
+
+  Fixpoint auth_lookup (i : nat) (rest : list bytes) (n c : bytes) : option bytes :=
+    match rest with
+    | [] => None
+    | s :: r => let nn := nonce_of ns pre (N.of_nat i) (i + 1 =? length ss) in
+                if beq n nn && beq c (encs nn s) then Some s else auth_lookup (S i) r n c
+    end.
+  Definition ideal_decs : bytes -> bytes -> option bytes := auth_lookup 0 ss.
+
+  Lemma auth_lookup_sound : forall rest done i n c s,
+    ss = done ++ rest -> length done = i -> auth_lookup i rest n c = Some s ->
+    exists k, k < length ss /\ n = nonce_of ns pre (N.of_nat k) (k + 1 =? length ss) /\
+              s = nth k ss [] /\ c = encs n s.
+  Proof.
+    induction rest as [|x rest IH]; intros done i n c s Hss Hi H; simpl in H; [discriminate|].
+    destruct (beq n _ && beq c _) eqn:E.
+    - inversion H; subst x; clear H. apply andb_true_iff in E. destruct E as [E1 E2].
+      apply beq_eq in E1, E2. exists i. repeat split.
+      + rewrite Hss, app_length. simpl. lia.
+      + exact E1.
+      + rewrite Hss, app_nth2 by lia. rewrite Hi, Nat.sub_diag. reflexivity.
+      + rewrite E2, <- E1. reflexivity.
+    - apply (IH (done ++ [x]) (S i) n c s); auto.
+      + rewrite <- app_assoc. exact Hss.
+      + rewrite app_length. simpl. lia.
+  Qed.
+
+  Lemma ideal_decs_auth n c s : ideal_decs n c = Some s ->
+    exists k, k < length ss /\ n = nonce_of ns pre (N.of_nat k) (k + 1 =? length ss) /\
+              s = nth k ss [] /\ c = encs n s.
+  Proof. apply (auth_lookup_sound ss [] 0); reflexivity. Qed.
+End IdealDecs.
